@@ -316,6 +316,26 @@ def x_stream(ctx, case):
                   lambda: {"file": True, "chunks": chunks, "expected": expected})
         ctx.check(all(0 < len(x) <= cs for x in chunks), "stream.chunks-nonempty-and-bounded",
                   lambda: {"file": True, "chunks": chunks, "chunk_size": cs})
+        # -- the convenience wrapper: attach_file(detailed, path, name, content_type, chunk_size, buffer_now)
+        from testtools.content import attach_file
+
+        class Detailed:
+            def __init__(self):
+                self.details = {}
+
+            def addDetail(self, name, content):
+                self.details[name] = content
+        with open(p, "wb") as f:
+            f.write(data)
+        holder = Detailed()
+        attach_file(holder, p, "attached", ct, cs, bn)
+        attach_file(holder, p, content_type=ct, chunk_size=cs, buffer_now=bn)      # the name defaults to the file's
+        for name in ("attached", os.path.basename(p)):
+            c2 = holder.details.get(name)
+            got = list(c2.iter_bytes()) if c2 is not None else None
+            ctx.check(got is not None and b"".join(got) == data and all(0 < len(x) <= cs for x in got)
+                      and c2.content_type == ct, "stream.chunks-nonempty-and-bounded",
+                      lambda: {"attach_file": name, "chunks": got, "chunk_size": cs, "buffer_now": bn})
     finally:
         shutil.rmtree(d, ignore_errors=True)
     return len(data) > 0
